@@ -4,7 +4,7 @@ import contracts.standins_multirun as B
 import contracts.multirun as MR
 import contracts.getiter as GI
 
-PROVED = [MR.multi_run, GI.get_iter]
+PROVED = [MR.multi_run, MR.multi_run_bytes, GI.get_iter, GI.get_array_c, GI.make_c]
 
 PROPERTY = Property(
     "C15", "proof",
